@@ -201,3 +201,56 @@ theorem twoRun_spec (lim : Nat) (pick : List Int → Nat) (collect : Bool) (gval
     exact (by simpa using this : Rep (Ek.flatMap fun e => List.replicate e.2.2 e.2.1) _ collect _).perm hvals
 
 end SV.Agg
+
+namespace SV.Agg
+
+/-- explicit form of a successful TwoSourceAggregator run -/
+theorem twoRun_eq (lim : Nat) (pick : List Int → Nat) (collect : Bool) (gval : Nat → String)
+    (fval : Nat → Option Int) (evs : List Ev) (hp : ParseOk fval evs) :
+    twoRun lim pick collect gval fval evs = some
+      ⟨((countMap [] (twoK2 evs)).map fun kc => (kc.1, (fval kc.1.2.2).getD 0, kc.2)).foldl
+          (fun bs e => upsert ⟨e.1.1, gval e.1.2.1⟩ (twoIns lim pick collect e.2.1 e.2.2) bs)
+          ((countMap [] (twoK1 evs)).foldl
+            (fun bs gc => upsert ⟨0, gval gc.1⟩ (fun c => { c with notExists := gc.2 }) bs) []),
+        0 + (evs.filter fun ev => ev.g.isNone && ev.f.isSome).length⟩ := by
+  have P2 := countMap_props ([] : List ((Nat × Nat × Nat) × Nat)) (twoK2 evs) (by simp [KeysNodup]) (by intro kc h; simp at h)
+  have hparse : ∀ kc, kc ∈ countMap [] (twoK2 evs) → (fval kc.1.2.2).isSome = true := by
+    intro kc hkc
+    have h1 := mem_expand _ P2.2.1 kc hkc
+    have h2 : kc.1 ∈ twoK2 evs := by simpa [expand] using P2.2.2.mem_iff.mp h1
+    unfold twoK2 at h2
+    obtain ⟨ev, hev, he⟩ := List.mem_filterMap.mp h2
+    cases hg : ev.g <;> cases hf : ev.f <;> simp [hg, hf] at he
+    rw [← he]
+    exact hp ev hev _ hf
+  unfold twoRun twoAggregate
+  rw [twoStep_fold]
+  simp only [TwoSt.init]
+  rw [twoParse_ok fval _ hparse]
+  rfl
+
+/-- a bin whose token is not the value of any group source does not exist in the result -/
+theorem twoRun_absent (lim : Nat) (pick : List Int → Nat) (collect : Bool) (gval : Nat → String)
+    (fval : Nat → Option Int) (evs : List Ev) (hp : ParseOk fval evs) (k : Bin) (hk : ∀ g, gval g ≠ k.token) :
+    ∃ a, twoRun lim pick collect gval fval evs = some a ∧ a.get k = none := by
+  refine ⟨_, twoRun_eq lim pick collect gval fval evs hp, ?_⟩
+  simp only [AS.get]
+  rw [lookup_foldl_upsert (fun e : (Nat × Nat × Nat) × Int × Nat => (⟨e.1.1, gval e.1.2.1⟩ : Bin))
+    (fun e c => twoIns lim pick collect e.2.1 e.2.2 c)]
+  have h1 : ((countMap [] (twoK2 evs)).map fun kc => (kc.1, (fval kc.1.2.2).getD 0, kc.2)).filter
+      (fun e => (⟨e.1.1, gval e.1.2.1⟩ : Bin) = k) = [] := by
+    rw [List.filter_eq_nil_iff]
+    intro e _
+    simp only [decide_eq_true_eq]
+    intro h; exact hk e.1.2.1 (by rw [← h])
+  rw [h1]
+  simp only [if_true]
+  rw [lookup_foldl_upsert (fun gc : Nat × Nat => (⟨0, gval gc.1⟩ : Bin)) (fun gc c => { c with notExists := gc.2 })]
+  have h2 : (countMap [] (twoK1 evs)).filter (fun gc => (⟨0, gval gc.1⟩ : Bin) = k) = [] := by
+    rw [List.filter_eq_nil_iff]
+    intro gc _
+    simp only [decide_eq_true_eq]
+    intro h; exact hk gc.1 (by rw [← h])
+  rw [h2]; simp
+
+end SV.Agg
